@@ -72,8 +72,8 @@ func checkC05(p *Prog, r *Report) {
 	r.Stat("functions in the synchronous inbound call tree", len(w.reach))
 	r.Stat("panic-prone sites on wire data", w.Total)
 	r.Stat("guarded sites", w.Guarded)
-	r.Floor("R1", "functions in the synchronous inbound call tree", len(w.reach), 300)
-	r.Floor("R1", "panic-prone sites on wire data", w.Total, 80)
+	r.Floor("R1", "functions in the synchronous inbound call tree", len(w.reach), 100)
+	r.Floor("R1", "panic-prone sites on wire data", w.Total, 20)
 	nf := 0
 	tf := 0
 	for _, k := range sortedKeys(w.taintedField) {
